@@ -19,9 +19,10 @@ func init() {
 	register(&Check{
 		ID:  "C05",
 		Run: runC05,
-		Explanation: "Decides that no document- or font-controlled string reaches a file path without the sanitizer, and that attachment extraction detects collisions before writing: (R1 CLEAN) at every call of a file-creating sink (pdfcpu.WriteReader/Write/CopyFile destination, api.openStagedOutput outFile, api.writeCutOutput, api.writeMultiFillOutput*, api.MergeCreateFile outFile, font.writeGob, os.OpenFile with O_CREATE, reservation opens) in pkg/api, pkg/cli and pkg/font the path argument is sliced backwards through filepath.Join/Clean, string concatenation, fmt.Sprintf, local variables, phi nodes, struct fields set in the same function and — interprocedurally — through parameters of unexported functions to all their call sites; every component other than the leading directory must be a constant, a formatted integer, a result of sanitize.Path (success result) / sanitize.PathOr / api.sanitizeFilenamePart, an os.DirEntry name, filepath.Base/Ext/TrimSuffix of such a value, or a string the API caller passed to an exported function (the caller's own names). Anything else (a struct field of a document model type, a dictionary lookup, a decoded name) is reported; (R2) in api.writeAttachments the success of reserveAttachmentOutputs dominates every writeAttachmentToPath; the reservation open carries O_CREATE|O_EXCL; in reserveAttachmentOutputs every path leaving the os.ErrExist branch returns a non-nil error (no continue/skip). NOT decided: that sanitize.Path itself yields a single safe component for all byte strings (a property of string values), case-folding or Unicode-normalising filesystems.",
+		Explanation: "Decides that no document- or font-controlled string reaches a file path without the sanitizer, and that attachment extraction detects collisions before writing: (R1 CLEAN) at every call of a file-creating sink (pdfcpu.WriteReader/Write/CopyFile destination, api.openStagedOutput outFile, api.writeCutOutput, api.writeMultiFillOutput*, api.MergeCreateFile outFile, font.writeGob, os.OpenFile with O_CREATE, reservation opens) in pkg/api, pkg/cli and pkg/font the path argument is sliced backwards through filepath.Join/Clean, string concatenation, fmt.Sprintf, local variables, phi nodes, struct fields set in the same function and — interprocedurally — through parameters of unexported functions to all their call sites; every component other than the leading directory must be a constant, a formatted integer, a result of sanitize.Path (success result) / sanitize.PathOr / api.sanitizeFilenamePart, an os.DirEntry name, filepath.Base/Ext/TrimSuffix of such a value, or a string the API caller passed to an exported function (the caller's own names). Anything else (a struct field of a document model type, a dictionary lookup, a decoded name) is reported; (R2) in api.writeAttachments the success of reserveAttachmentOutputs dominates every writeAttachmentToPath; the reservation open carries O_CREATE|O_EXCL; in reserveAttachmentOutputs every path leaving the os.ErrExist branch returns a non-nil error (no continue/skip). (R1, refined) a read of a field of a local aggregate is judged by the stores that can reach it: a store that comes later on every path (the sanitizing assignment after the read) says nothing about the value read, which was set through a pointer by a parser. (R3) the sanitizer itself: its component cleaner ranges over the component it was handed (not over a string derived from it by normalisation or decoding, which could bring separators back after Path has split on '/' and dropped '..'), and package sanitize calls nothing outside strings, unicode, utf8, errors, fmt, path, filepath and the logger. NOT decided: that sanitize.Path itself yields a single safe component for all byte strings (a property of string values), case-folding or Unicode-normalising filesystems.",
 		Rules: []string{
 			"C05.R1 CLEAN: closed-world path construction at file-creating sinks",
+			"C05.R3 shape/WMC: the sanitizer's component cleaner copies only runes of its input; closed set of callees in package sanitize",
 			"C05.R2 MPT: reserve-all-before-write with O_EXCL; an existing reservation always fails the extraction",
 		},
 		Assumptions: []string{"sanitize.Path / sanitize.PathOr return a single safe path component (not decided here)", "strings passed by the API caller to exported functions are the caller's responsibility"},
@@ -70,6 +71,8 @@ type cleanCtx struct {
 	state map[ssa.Value]int    // 1 in progress, 2 done
 	param map[*ssa.Parameter]string
 	pst   map[*ssa.Parameter]int
+	// curLoad: the load instruction whose address is being judged (orders the stores into a local aggregate's field)
+	curLoad *ssa.UnOp
 }
 
 var fieldCallIndex map[*types.Var][]ssa.CallInstruction
@@ -173,7 +176,11 @@ func (cc *cleanCtx) dirty1(v ssa.Value, depth int) string {
 		return cc.dirtyCall(x, 0, depth)
 	case *ssa.UnOp:
 		if x.Op == token.MUL {
-			return cc.dirtyCell(x.X, depth)
+			saved := cc.curLoad
+			cc.curLoad = x
+			res := cc.dirtyCell(x.X, depth)
+			cc.curLoad = saved
+			return res
 		}
 		return ""
 	case *ssa.Lookup:
@@ -350,10 +357,17 @@ func (cc *cleanCtx) dirtyField(base ssa.Value, idx int, pos token.Pos, depth int
 	}
 	if al, ok := cellRoot(root).(*ssa.Alloc); ok {
 		found, res := false, ""
+		later := 0
+		ld := cc.curLoad
 		for _, rf := range *al.Referrers() {
 			if fa, ok := rf.(*ssa.FieldAddr); ok && fa.Field == idx {
 				for _, rr := range *fa.Referrers() {
 					if st, ok := rr.(*ssa.Store); ok && st.Addr == fa {
+						// a store that cannot reach the read (it comes later on every path) says nothing about it
+						if ld != nil && ld.Parent() == st.Parent() && !storeMayReach(st, ld) {
+							later++
+							continue
+						}
 						found = true
 						if r := cc.dirty(st.Val, depth+1); r != "" {
 							res = r
@@ -364,6 +378,9 @@ func (cc *cleanCtx) dirtyField(base ssa.Value, idx int, pos token.Pos, depth int
 		}
 		if found {
 			return res
+		}
+		if later > 0 {
+			return fmt.Sprintf("field %s.%s is read (%s) before the only store(s) into it in this function: its value was set through a pointer by a callee (a parser) and is not sanitized yet", owner, f.Name(), p.Pos(pos))
 		}
 	}
 	// field of a record type filled by a module constructor: all stores to that field anywhere in the module
@@ -636,6 +653,8 @@ func runC05(c *Ctx) {
 	p, r := c.P, c.R
 	r.MinInst["C05.R1"] = 30
 	r.MinInst["C05.R2"] = 3
+	r.MinInst["C05.R3"] = 2
+	checkSanitizerIntegrity(c)
 	cc := &cleanCtx{c: c, memo: map[ssa.Value]string{}, state: map[ssa.Value]int{}, param: map[*ssa.Parameter]string{}, pst: map[*ssa.Parameter]int{}}
 	fieldStoreIndex = nil
 	fieldCallIndex = nil
@@ -780,4 +799,110 @@ func reachableWithin(start *ssa.BasicBlock, in func(*ssa.BasicBlock) bool) []*ss
 		st = append(st, b.Succs...)
 	}
 	return out
+}
+
+// storeMayReach: the store can be executed before the load on some path.
+func storeMayReach(st *ssa.Store, ld *ssa.UnOp) bool {
+	sb, lb := st.Block(), ld.Block()
+	if sb == lb {
+		si, li := -1, -1
+		for k, in := range sb.Instrs {
+			if in == ssa.Instruction(st) {
+				si = k
+			}
+			if in == ssa.Instruction(ld) {
+				li = k
+			}
+		}
+		if si < li {
+			return true
+		}
+		return reachableBlocks(sb)[sb] // in a loop: the store of an earlier iteration
+	}
+	return reachableBlocks(sb)[lb]
+}
+
+// ---------------- C05.R3 (round 3 of seeding): the sanitizer itself ----------------
+
+// checkSanitizerIntegrity: every sink rule above trusts sanitize.Path. Its guarantee (no separator, no "..") rests on two
+// facts that are visible in its shape: Path splits on '/' and drops "." / ".." BEFORE the per-component cleaner runs, and
+// the cleaner (pathPart) only copies runes of the component it was handed, or constants. So (a) pathPart ranges over its
+// own parameter — not over a string derived from it by some transformation that could produce new separators
+// (normalisation, decoding, unescaping) — and writes only those runes or constants; (b) the package calls nothing outside
+// strings, unicode, unicode/utf8, errors, fmt, path, path/filepath and the logger.
+func checkSanitizerIntegrity(c *Ctx) {
+	p, r := c.P, c.R
+	fid := "pkg/pdfcpu/sanitize.pathPart"
+	fn := p.Func(fid)
+	if fn == nil {
+		r.Bad("C05.R3", fid, "anchor", "", "UNRESOLVED-ANCHOR")
+	} else {
+		ranges := 0
+		eachInstr(fn, func(_ *ssa.BasicBlock, _ int, i ssa.Instruction) {
+			rg, ok := i.(*ssa.Range)
+			if !ok {
+				return
+			}
+			if bt, ok := rg.X.Type().Underlying().(*types.Basic); !ok || bt.Info()&types.IsString == 0 {
+				return
+			}
+			ranges++
+			x := rg.X
+			if cv, ok := x.(*ssa.Convert); ok {
+				x = cv.X
+			}
+			if _, isParam := x.(*ssa.Parameter); isParam {
+				r.OK("C05.R3", fid, fmt.Sprintf("rune loop#%d", ranges), p.Pos(rg.Pos()), "the component cleaner ranges over the component it was handed", true)
+			} else {
+				r.Bad("C05.R3", fid, fmt.Sprintf("rune loop#%d", ranges), p.Pos(rg.Pos()), "the component cleaner ranges over a string derived from its input ("+exprName(x)+") instead of the input itself: Path has already split on '/' and dropped '..', so a transformation here (normalisation, decoding) can bring separators and dot components back into a single component")
+			}
+		})
+		if ranges == 0 {
+			r.Bad("C05.R3", fid, "rune loop", p.Pos(fn.Pos()), "UNRESOLVED-ANCHOR: no rune loop over a string found in the component cleaner")
+		}
+	}
+	allowed := []string{"strings.", "unicode.", "unicode/utf8.", "errors.", "fmt.", "path.", "path/filepath.", "pkg/log.", "pkg/pdfcpu/sanitize.", "strings.Builder.", "log.Logger."}
+	n := 0
+	for _, f := range p.Funcs {
+		if f.Pkg == nil || f.Pkg.Pkg.Path() != modPath+"/pkg/pdfcpu/sanitize" {
+			continue
+		}
+		f := f
+		if f.Name() == "init" {
+			continue // package initialisation (imports)
+		}
+		k := 0
+		eachInstr(f, func(_ *ssa.BasicBlock, _ int, i ssa.Instruction) {
+			call, ok := i.(*ssa.Call)
+			if !ok {
+				return
+			}
+			if _, isB := call.Call.Value.(*ssa.Builtin); isB {
+				return
+			}
+			_, ref := callRef(call)
+			if ref == "" {
+				return
+			}
+			n++
+			ok2 := false
+			for _, a := range allowed {
+				if strings.HasPrefix(ref, a) {
+					ok2 = true
+				}
+			}
+			if strings.HasPrefix(ref, "pkg/log.") || strings.Contains(ref, "Logger") || strings.Contains(ref, "logger") {
+				ok2 = true
+			}
+			if !ok2 {
+				k++
+				r.Bad("C05.R3", FuncID(f), fmt.Sprintf("callee %s#%d", ref, k), p.Pos(call.Pos()), "the path sanitizer calls "+ref+", outside its closed set of string primitives: a transformation of the name inside the sanitizer can undo what the split/drop steps established")
+			}
+		})
+	}
+	if n == 0 {
+		r.Bad("C05.R3", "pkg/pdfcpu/sanitize", "anchor", "", "UNRESOLVED-ANCHOR: no calls found in package sanitize")
+	} else {
+		r.OK("C05.R3", "pkg/pdfcpu/sanitize", "closed set of callees", "", fmt.Sprintf("%d calls, all to string primitives of the standard library, the logger or the package itself", n), true)
+	}
 }
